@@ -8,6 +8,9 @@
 
 from __future__ import annotations
 
+import os
+import re
+
 from hypothesis import strategies as st
 
 from .. import core
@@ -230,11 +233,27 @@ def build_env(ecfg: dict):
     return env
 
 
+_NONCE = [0]
+_NONCE_RE = re.compile(r"~N\d+x\d+$")
+
+
+def _strip_nonce(o: tuple) -> tuple:
+    if o and o[0] == "ok" and isinstance(o[1], str):
+        return (o[0], _NONCE_RE.sub("", o[1]), *o[2:])
+    return o
+
+
 def run_history(envcfgs: list, ops: list, only: int | None = None) -> dict:
-    """Run the operations (all, or only those of environment ``only``); returns {op index: outcome}."""
+    """Run the operations (all, or only those of environment ``only``); returns {op index: outcome}.
+
+    Every parsed source ends with a literal text nonce that is unique to the pass, so that no cache keyed by
+    source text that survives from an earlier pass or case can make two passes agree by accident.
+    """
     live: dict = {}
     slots: dict = {}
     out: dict = {}
+    _NONCE[0] += 1
+    nonce = f"{os.getpid()}x{_NONCE[0]}"  # one per pass: the same template has the same text for every environment of a pass
     for idx, op in enumerate(ops):
         kind, e = op[0], op[1]
         if only is not None and e != only:
@@ -254,6 +273,7 @@ def run_history(envcfgs: list, ops: list, only: int | None = None) -> dict:
             src, collide = substitute(TEMPLATES[tid], POOL[envcfgs[e]["delims"]])
             if collide:
                 continue
+            src += f"~N{nonce}"
             o = oc.outcome_of(lambda: env.from_string(src))  # noqa: B023
             if o[0] == "ok":
                 slots[(e, slot)] = o[1]
@@ -266,7 +286,7 @@ def run_history(envcfgs: list, ops: list, only: int | None = None) -> dict:
             t = slots.get((e, slot))
             if t is None:
                 continue
-            out[idx] = oc.short(oc.outcome_of(lambda: t.render(**DATAS[did])))  # noqa: B023
+            out[idx] = _strip_nonce(oc.short(oc.outcome_of(lambda: t.render(**DATAS[did]))))  # noqa: B023
     return out
 
 
@@ -438,11 +458,13 @@ def history_cases(draw):
     ops = [["create", e] for e in range(k)]
     r.shuffle(ops)
     body = []
+    # a history works on one to three templates, so that different environments meet on the same source text
+    tids = r.sample(range(len(TEMPLATES)), r.choice([1, 2, 2, 3]))
     for _ in range(r.randint(4, 14)):
         e = r.randrange(k)
         c = r.random()
         if c < 0.45:
-            body.append(["parse", e, r.randrange(len(TEMPLATES)), r.randrange(3)])
+            body.append(["parse", e, r.choice(tids), r.randrange(3)])
         elif c < 0.85:
             body.append(["render", e, r.randrange(3), r.randrange(len(DATAS))])
         elif c < 0.93:
@@ -461,12 +483,17 @@ def campaign(ctx: core.Ctx, tier: str, shard: int, nshards: int) -> None:
     core.drive(rewrite_cases(), ctx.run, n=(3200 if quick else 80000) // nshards, seed=core.sub_seed(ctx.seed, shard))
     core.drive(lookalike_cases(), ctx.run, n=(800 if quick else 16000) // nshards, seed=core.sub_seed(ctx.seed, shard, 1))
 
+    count = [0]
+
     def run_hist(case):
-        if shard == 0:
+        # every sixteenth history is compared with a pristine forked process (no memo or cache of any kind can be
+        # shared with it), the others with a cache-cleared re-run in this process
+        count[0] += 1
+        if count[0] % 16 == 1:
             case = dict(case, isolated=True)
         ctx.run(case)
 
-    core.drive(history_cases(), run_hist, n=((1600 if quick else 40000) // nshards) // (4 if shard == 0 else 1), seed=core.sub_seed(ctx.seed, shard, 2))
+    core.drive(history_cases(), run_hist, n=(1600 if quick else 40000) // nshards, seed=core.sub_seed(ctx.seed, shard, 2))
 
 
 def finish_kwargs(ctx: core.Ctx, tier: str) -> dict:
@@ -482,9 +509,12 @@ def finish_kwargs(ctx: core.Ctx, tier: str) -> dict:
             "looks like default delimiters under custom delimiters and compares with the default-delimiter original "
             "holding same-length stand-ins. (b) Histories of 5-18 operations over 2-4 environments (10 delimiter "
             "sets incl. pairs sharing tag or statement delimiters, strict/lax, extra on/off; half of the histories "
-            "use two configurations differing in one field): create, parse one of 13 templates into a slot, render a "
+            "use two configurations differing in one field; each history works on 1-3 of 13 templates so that "
+            "environments meet on the same source text): create, parse a template into a slot, render a "
             "slot, add a filter, add a tag. Every result must equal the result of that environment's own operations "
-            "run alone (after clearing the lexer/parser memos; in a pristine forked process on shard 0). "
+            "run alone (every sixteenth history: in a pristine forked process; the others: re-run in-process after clearing "
+            "the lexer/parser memos, every parsed source carrying a process-unique text nonce so that a cache keyed by "
+            "source text cannot make the two passes agree by accident). "
             "Non-trivial: (a) different delimiter sets and a non-empty successful render; (b) at least two "
             "environments and three parse/render operations."
         ),
